@@ -112,6 +112,7 @@ func (o c03Op) nr() int {
 // c03Gen builds a random program over a process tree; returns the script and the operations in program order
 type c03Gen struct {
 	execBias bool // programs in which processes replace their image often
+	deferred bool // a forked process of the main process is collected at the end only
 	rng     *Rng
 	nextID  int
 	nameAct map[string]string
@@ -139,6 +140,14 @@ func (g *c03Gen) seq(lineage string, depth, n int) string {
 				inner = "exec; " + inner
 			}
 			end := map[string]string{"fork": "endfork; wait", "vfork": "endfork; wait", "thread": "endthread; join"}[kind]
+			// the main process does not always wait for a forked process at once: the child does its part (within
+			// milliseconds) and lingers, the parent goes on after a pause and collects it at the very end — the order
+			// of the calls is still the program order
+			if kind == "fork" && lineage == "r" && g.execBias && g.rng.Chance(60) {
+				inner = inner + "; sleep 400"
+				end = "endfork; sleep 120"
+				g.deferred = true
+			}
 			parts = append(parts, kind+"; "+inner+"; "+end)
 			continue
 		}
@@ -295,7 +304,11 @@ func runC03(res *Result, d *Driver, tier string, seed uint64) {
 					g.nameAct[n] = "b"
 				}
 			}
-			script := g.seq("r", 0, 2+rng.Intn(5)) + "; exit 0"
+			script := g.seq("r", 0, 2+rng.Intn(5))
+			if g.deferred {
+				script += "; wait"
+			}
+			script += "; exit 0"
 			h := &c03Handler{byID: map[int]string{}, byName: g.nameAct, workdir: work}
 			var mops []string
 			nontrivial := false
